@@ -86,10 +86,16 @@ class SimulatesSamples(work.Sampler, metaclass=abc.ABCMeta):
             records = {}
             if repetitions == 0:
                 # Empty records of shape (0, instances of the key, measured qubits).
-                for _, op, _ in program.findall_operations_with_gate_type(ops.MeasurementGate):
+                for op in program.all_operations():
+                    if isinstance(op.gate, ops.MeasurementGate):
+                        width = len(op.qubits)
+                    elif isinstance(op.gate, ops.PauliMeasurementGate):
+                        width = 1  # one digit: the eigenvalue's sign
+                    else:
+                        continue
                     key = protocols.measurement_key_name(op)
                     instances = records[key].shape[1] + 1 if key in records else 1
-                    records[key] = np.empty([0, instances, len(op.qubits)], dtype=np.uint8)
+                    records[key] = np.empty([0, instances, width], dtype=np.uint8)
             else:
                 records = self._run(
                     circuit=program, param_resolver=param_resolver, repetitions=repetitions
